@@ -1125,7 +1125,7 @@ func (p *parser) readGlyphList() []glyph.ID {
 				p.backlog = append(p.backlog, item)
 				p.fatal("cannot use strings, font has no cmap table")
 			}
-			for r := range decodeString(item.val) {
+			for _, r := range decodeString(item.val) {
 				gid := p.cmap.Lookup(r)
 				if gid == 0 {
 					p.fatal("rune %q not in mapped in font", r)
@@ -1391,35 +1391,33 @@ func (p *parser) optionalIdentifier(name string) bool {
 	return true
 }
 
-func decodeString(s string) <-chan rune {
-	c := make(chan rune)
-	go func() {
-		s := s[1 : len(s)-1]
-		escape := false
-		for _, r := range s {
-			if escape {
-				escape = false
-				switch r {
-				case 'n':
-					c <- '\n'
-				case 'r':
-					c <- '\r'
-				case 't':
-					c <- '\t'
-				default:
-					c <- r
-				}
-				continue
+// decodeString returns the runes of a quoted string, with the enclosing
+// quotes removed and escape sequences resolved.
+func decodeString(s string) []rune {
+	var res []rune
+	s = s[1 : len(s)-1]
+	escape := false
+	for _, r := range s {
+		if escape {
+			escape = false
+			switch r {
+			case 'n':
+				r = '\n'
+			case 'r':
+				r = '\r'
+			case 't':
+				r = '\t'
 			}
-			if r == '\\' {
-				escape = true
-				continue
-			}
-			c <- r
+			res = append(res, r)
+			continue
 		}
-		close(c)
-	}()
-	return c
+		if r == '\\' {
+			escape = true
+			continue
+		}
+		res = append(res, r)
+	}
+	return res
 }
 
 func isIdentifier(i item, val string) bool {
